@@ -247,6 +247,9 @@ func runConfine(c *core.Ctx, sc *scratch, w *confWorld, i, k int, st *struct{ in
 	} else if res == "error" {
 		st.refused++
 	}
+	if (st.inside == 1 && strings.HasPrefix(res, "inside")) || (st.refused == 3 && res == "error") {
+		c.Sample(map[string]any{"family": "confine", "name": cc.label, "guid": guidText(cc.guid), "result": res, "err": fmt.Sprint(err)})
+	}
 	c.Cell("confine|%s|%s|%s", cc.class, shapeOf(cc.units), res)
 	*batch = append(*batch, straceCase{I: i, GUID: hex.EncodeToString(cc.guid[:]), Name: hex.EncodeToString(nameBytes), Label: cc.label})
 
